@@ -179,12 +179,18 @@ fn artifact_observables(sut: &Sut, out: &mut Observables) {
                 out.insert("annotations".into(), normalise_annotations(&a.program, &d.annotations));
                 out.insert("executables".into(), format!("{:?}", d.executables.len()));
             }
-            // CASM of the program.
+            // CASM of the program (gas and ap-change solving included), computed under the run's
+            // hash seed: a pure function of the Sierra program unless something iterates a hash map.
             let casm = std::panic::catch_unwind(AssertUnwindSafe(|| {
-                let info = cairo_lang_sierra::program_registry::ProgramRegistry::<cairo_lang_sierra::extensions::core::CoreType, cairo_lang_sierra::extensions::core::CoreLibfunc>::new(&a.program).map(|_| ()).map_err(|e| e.to_string());
-                info
+                match cairo_lang_runnable_utils::builder::RunnableBuilder::new(a.program.clone(), Some(Default::default())) {
+                    Ok(b) => b.casm_program().to_string(),
+                    Err(e) => format!("ERR {e}"),
+                }
             }));
-            out.insert("registry".into(), format!("{casm:?}"));
+            out.insert("registry".into(), match casm {
+                Ok(s) => s,
+                Err(p) => format!("PANIC {}", dbx::panic_message(p)),
+            });
         }
         Err(e) => {
             out.insert("sierra_debug_names".into(), format!("ERR {e}"));
@@ -254,6 +260,18 @@ fn starknet_observables(sut: &Sut, out: &mut Observables) {
         Ok(classes) => {
             for (i, c) in classes.iter().enumerate() {
                 out.insert(format!("contract_class_{i}"), serde_json::to_string(c).unwrap_or_else(|e| format!("ERR {e}")));
+                // The compiled (CASM) class, as `starknet-sierra-compile` produces it.
+                let casm = std::panic::catch_unwind(AssertUnwindSafe(|| {
+                    let extracted = c.extract_sierra_program(false).map_err(|e| format!("{e:?}"))?;
+                    cairo_lang_starknet_classes::casm_contract_class::CasmContractClass::from_contract_class(c.clone(), extracted, false, usize::MAX)
+                        .map(|cc| serde_json::to_string(&cc).unwrap_or_else(|e| format!("ERR {e}")))
+                        .map_err(|e| format!("{e}"))
+                }));
+                out.insert(format!("contract_class_{i}_casm"), match casm {
+                    Ok(Ok(s)) => s,
+                    Ok(Err(e)) => format!("ERR {e}"),
+                    Err(p) => format!("PANIC {}", dbx::panic_message(p)),
+                });
             }
         }
         Err(e) => {
@@ -1010,7 +1028,7 @@ pub fn write_evidence(tier: &str) {
     }
     ev.set("samples", json!(samples));
     ev.set("simulated_time", json!({"unit": "logical steps (simulated tasks and executed queries); there is no clock in this system", "tasks": l1["summary"]["simulated_tasks"], "queries": l1["summary"]["queries_executed"]}));
-    ev.set("observables_compared", json!(["sierra_debug_names (Program Display after replace_ids)", "sierra_canonical_ids (CanonicalReplacer)", "annotations (statements functions / code locations / functions debug info / type names)", "artifact_diagnostics", "diagnostics", "contract_class_<i> JSON (Starknet projects)", "program registry construction"]));
+    ev.set("observables_compared", json!(["sierra_debug_names (Program Display after replace_ids)", "sierra_canonical_ids (CanonicalReplacer)", "annotations (statements functions / code locations / functions debug info / type names)", "artifact_diagnostics", "diagnostics", "contract_class_<i> JSON (Starknet projects)", "CASM text of the program (RunnableBuilder: registry, gas/ap-change metadata, sierra-to-casm)", "contract_class_<i>_casm (CasmContractClass JSON)"]));
     ev.set("real_vs_stub", json!({
         "real": ["the whole compiler and its warm-up code (built from /repo working tree)", "salsa 0.28.2 (level 2: with its shuttle feature, mutexes/condvars/atomics are shuttle's)"],
         "simulated": ["rayon thread pool and OS scheduler (H1 shim + simulated executor / shuttle scheduler)", "hash seeds of cairo-lang-utils maps (H2)", "the build driver's query history"],
